@@ -148,4 +148,38 @@ def hasNestedMulti (s : Stmt) : Bool :=
     | .ann _ _ e => e.nestedMulti
     | _ => false
 
+def Expr.isMulti : Expr → Bool
+  | .multi2 .. => true
+  | .multi3 .. => true
+  | _ => false
+
+/-- a component annotation with several combinations that shares its component type with a
+    further annotation: the two are joined by the implicit conjunction, so the wAND node is
+    not the root of the component's tree -/
+def multiWithSibling (s : Stmt) : Bool :=
+  let anns := s.parts.filterMap fun p => match p with | .ann h _ e => some (h.sym.simple, e.isMulti) | _ => none
+  anns.any fun a => a.2 && (anns.filter (fun b => b.1 = a.1)).length > 1
+
+/-- the wAND node of a component is not the root of the component's tree (known-finding class
+    of C04 / C12) — top level of the statement only -/
+def wandBelowRootTop (s : Stmt) : Bool := hasNestedMulti s || multiWithSibling s
+
+mutual
+/-- `wandBelowRootTop` for the statement and every statement nested in it -/
+def wandBelowRoot : Stmt → Bool
+  | .mk ps => wandBelowRootTop (.mk ps) || wbrParts ps
+def wbrParts : List Part → Bool
+  | [] => false
+  | .nested _ s :: ps => wandBelowRoot s || wbrParts ps
+  | .ncomb _ t :: ps => wbrN t || wbrParts ps
+  | .pairs t :: ps => wbrG t || wbrParts ps
+  | _ :: ps => wbrParts ps
+def wbrN : NTree → Bool
+  | .one _ s => wandBelowRoot s
+  | .op _ l r => wbrN l || wbrN r
+def wbrG : GTree → Bool
+  | .grp s => wandBelowRoot s
+  | .op _ l r => wbrG l || wbrG r
+end
+
 end IGVerif
